@@ -12,6 +12,7 @@ import (
 	"github.com/kelindar/bitmap"
 	"github.com/kelindar/column/commit"
 	"github.com/kelindar/smutex"
+	"github.com/tidwall/btree"
 )
 
 type vAssumeFailed struct{}
@@ -77,6 +78,9 @@ func vDistinctBacking(a, b any) bool {
 func vSameSlice(a, b []uint64) bool {
 	return len(a) == len(b) && (len(a) == 0 || &a[0] == &b[0])
 }
+
+// vFresh: the pointer designates storage allocated during the execution under contract.
+func vFresh(p any) bool { return true }
 
 // vCallCount is ghost state: how often the (unknown) function value f has been called so far.
 func vCallCount(f any) int { return 0 }
@@ -334,4 +338,58 @@ func (l *vLogger) Append(c commit.Commit) error {
 	vLogCount++
 	vLogLastID, vLogLastChk = c.ID, c.Chunk
 	return nil
+}
+
+// bitmap.MinZero: the first zero bit, or (0, false) when every word is full.
+//
+//@ model bitmap.(Bitmap).MinZero
+func vModelBitmapMinZero(dst bitmap.Bitmap) (uint32, bool) {
+	x := vNondet[uint32]()
+	ok := vNondet[bool]()
+	if !ok {
+		vAssume(vForall(0, len(dst), func(i int) bool { return dst[i] == 0xffffffffffffffff }))
+		return 0, false
+	}
+	vAssume(int(x>>6) < len(dst) && !vBit(dst, x))
+	vAssume(vForall(0, len(dst)*64, func(j int) bool { return uint32(j) >= x || vBit(dst, uint32(j)) }))
+	return x, true
+}
+
+// Ghost counters for contracts that replace whole phases of a transaction.
+var (
+	vDidCommit   int
+	vDidRollback int
+	vDidReset    int
+)
+
+// ---------------------------------------------------------------------------------------------
+// btree model (C16): an ordered set modulo the user's `less` - two items with neither less(a,b) nor less(b,a) are the
+// same element. Contracts see it through ghost state: the comparator it was built with and a log of operations.
+
+var (
+	vTreeLess    func(a, b sortIndexItem) bool // ghost: comparator of the tree under contract
+	vTreeSets    int                          // ghost: number of Set calls
+	vTreeDeletes int                          // ghost: number of Delete calls
+	vTreeLastSet sortIndexItem                // ghost: last item passed to Set
+	vTreeLastDel sortIndexItem                // ghost: last item passed to Delete
+)
+
+//@ model btree.NewBTreeG
+func vModelNewBTree(less func(a, b sortIndexItem) bool) *btree.BTreeG[sortIndexItem] {
+	vTreeLess = less
+	return new(btree.BTreeG[sortIndexItem])
+}
+
+//@ model btree.(*BTreeG).Set
+func vModelBTreeSet(t *btree.BTreeG[sortIndexItem], item sortIndexItem) (sortIndexItem, bool) {
+	vTreeSets++
+	vTreeLastSet = item
+	return vNondet[sortIndexItem](), vNondet[bool]()
+}
+
+//@ model btree.(*BTreeG).Delete
+func vModelBTreeDelete(t *btree.BTreeG[sortIndexItem], item sortIndexItem) (sortIndexItem, bool) {
+	vTreeDeletes++
+	vTreeLastDel = item
+	return vNondet[sortIndexItem](), vNondet[bool]()
 }
